@@ -105,7 +105,9 @@ def run_scenarios(ctx, scenarios, name, shards=None):
     cells = leaves = 0
     for p in procs:
         o_, e = p.communicate(timeout=3000)
-        if p.returncode != 0:
+        if p.returncode == 5:
+            ctx.partial = "a library call did not return within the per-recipe deadline; the rest of that shard was skipped"
+        elif p.returncode != 0:
             raise Undecided("wltree driver failed: " + (e or o_)[-1500:])
         last = [l for l in o_.strip().split("\n") if l.startswith("{")]
         if last:
